@@ -70,7 +70,9 @@ class SessionRules(Harness):
                 for n0 in ((3,) if tier == "quick" else (2, 3, 4)):
                     out.append({"fam": "events", "event": ev, "where": where, "n0": n0, "n1": 1, "L": 1})
             out.append({"fam": "events", "event": ev, "where": 0, "n0": 3, "n1": 0, "L": 1})
+        out.append({"fam": "halt-then-noexec", "L": 1})
         if tier == "thorough":
+            out.append({"fam": "halt-then-noexec", "L": 2})
             out.append({"fam": "events", "event": "halt", "where": 1, "n0": 4, "n1": 2, "L": 2})
         return out
 
@@ -88,6 +90,17 @@ class SessionRules(Harness):
             sessions = [rn.session(i, n, p, e, maxNormalOrders=2) for i, (p, e, n) in enumerate(case["sessions"])]
             st = rn.base_settings(n_agents=2, sessions=sessions)
             menu = {"acts": ["none", "limit"], "per_agent": {"0": {"side": "B"}, "1": {"side": "S"}}}
+        elif fam == "halt-then-noexec":
+            # execution session of 2 steps with a halt rule; solver-chosen prices in its last step (the halt, if it
+            # fires, outlives the session); then 3 steps without execution with crossing quotes at 300
+            ev = dict(EVENTS["halt"])
+            ev["haltingTimeLength"] = case["L"]
+            ev["triggerChangeRate"] = 0.1
+            sessions = [rn.session(0, 2, True, True, maxNormalOrders=2, events=["EV"]),
+                        rn.session(1, 3, True, False, maxNormalOrders=2)]
+            st = rn.base_settings(n_agents=2, sessions=sessions, extra={"EV": ev})
+            menu = {"acts": ["limit"], "per_agent": {"0": {"side": "B"}, "1": {"side": "S"}}, "vol_fixed": 1,
+                    "price_hi": 1000, "active_from": 1, "price_by_time": {"1": "sym", "default": 300}}
         elif fam == "cancel-round":
             sessions = [rn.session(0, case["n0"], True, False, maxNormalOrders=2),
                         rn.session(1, 1, True, True, maxNormalOrders=2)]
@@ -110,7 +123,7 @@ class SessionRules(Harness):
             if "PROBE" not in sd.get("events", []) and not (fam == "events" and case["event"] == "probe"):
                 sd["events"] = list(sd.get("events", [])) + ["PROBE"]
         st["PROBE"] = {"class": "ProbeAll"}
-        watch = _RoundWatch(g, fam == "events" and case["event"] == "halt")
+        watch = _RoundWatch(g, (fam == "events" and case["event"] == "halt") or fam == "halt-then-noexec")
         ctx = rn.make_run(g, st, menu, on_event=watch)
         sim = ctx.sim
         ctx.declared_exec = {s.session_id: sd["withOrderExecution"]
